@@ -421,6 +421,15 @@ def periodic (s : Slave) (i : Nat) : Slave :=
   let (s, ok) := handleTimeouts s i
   if !ok then s.setConn i { s.conn i with isRunning := false } else s
 
+/-- `MasterConnection_resetUnconfirmedQueueEntries`: the events sent on THIS connection and not
+yet confirmed wait for transmission again (entries sent by other connections are not touched) -/
+def resetUnconfirmed (s : Slave) (j : Nat) : Slave :=
+  (s.conn j).win.foldl (fun s e => match e.qref with
+    | some (o, id) =>
+      let g := s.grp (s.gidx j)
+      s.setGrp (s.gidx j) { g with lowQ := g.lowQ.setEntryWaiting o id }
+    | none => s) s
+
 /-- `handleClientConnections` -/
 def handleClientConnections (s : Slave) : Slave :=
   if s.openConnections > 0 then
@@ -433,8 +442,7 @@ def handleClientConnections (s : Slave) : Slave :=
         if c.isRunning then (s, true, rdy || c.sock.readable)
         else
           let s := emit s (.ev j "CLOSED")
-          let g := s.grp (s.gidx j)
-          let s := s.setGrp (s.gidx j) { g with lowQ := g.lowQ.setWaitingWhenNotConfirmed }
+          let s := resetUnconfirmed s j
           let s := s.setConn j { s.conn j with isUsed := false, state := 0 }
           ({ s with openConnections := s.openConnections - 1 }, anyR, rdy)
       else acc) (s, false, false)
